@@ -47,8 +47,9 @@ TRUSTED = [
     'read (trial data, source at initialisation, source data field values, event data snapshot, grid values); the theorems '
     'hold for every interpretation, float rounding included, because equal inputs give equal outputs',
     'modelled, not verified: SigOverBkgPDFRatio/SourceWeightedPDFRatio keep per-call scratch values (_cache_sig_pd, '
-    '_cache_R_i, ...) that are overwritten by every get_ratio before get_gradient reads them; global-fit-parameter data '
-    'fields (evaluate raises TypeError for them: keyword mismatch in llhratio.evaluate) and the photospline branch are outside',
+    '_cache_R_i, ...) that are overwritten by every get_ratio before get_gradient reads them; NOT modelled: '
+    'global-fit-parameter data fields (DataField._global_fitparam_value_list / `name in tdm.events` test; with such fields every '
+    'evaluate bumps the state id, so the id-keyed caches of this model always miss) and the photospline branch',
     'harness oracle: freshly built objects replaying the minimal history',
 ]
 
